@@ -54,6 +54,14 @@ func runC20(c *Ctx) {
 	for k := 0; k < c.Pick(4, 12); k++ {
 		evalHistoryC20(c, seqSpecC20(c, k))
 	}
+	// the same in the equipment role: a T3 expiry additionally emits S9F9 (auto-S9F9), a second exit-path of the
+	// reply wait whose gauge / counter bookkeeping must balance like the others (after seeded change C20c-2)
+	for k := 0; k < c.Pick(3, 8); k++ {
+		sp := seqSpecC20(c, 100+k)
+		sp.Name = "equip-" + sp.Name
+		sp.Equip = true
+		evalHistoryC20(c, sp)
+	}
 	// concurrent storms (no drop)
 	sizes := []int{1, 2, 4, 8, 16, 32, 64}
 	for k := 0; k < c.Pick(2, 8); k++ {
@@ -327,6 +335,9 @@ func oracleC20(c *Ctx, sp *rSpec, h *rHistory, replay map[string]any) string {
 				wantSent = 1
 			case "timeout":
 				wantSent, wantErr = 1, 1
+				if sp.Equip {
+					wantSent = 2 // the auto-S9F9 notice is one more data frame on the wire (checked against the peer's count below)
+				}
 			case "notselected":
 				wantDrop = 1
 			case "writeerr":
